@@ -74,9 +74,9 @@ Qed.
 End Arith.
 
 (* ---- dispatch_resume ---- *)
-Lemma land_suspend_bits s : wf s -> Z.land s SUSPEND_BITS = hi s * 36028797018963968.
+Lemma land_suspend_bits s : wf s -> Z.land s 18410715276690587648 = hi s * 36028797018963968.
 Proof.
-  intros W. unfold SUSPEND_BITS, hi.
+  intros W. unfold hi.
   rewrite (land_mask s 18410715276690587648 9 55) by (try lia; reflexivity).
   change (2 ^ 55) with 36028797018963968. change (2 ^ 9) with 512.
   f_equal. apply Z.mod_small. unfold wf in W. split; [apply Z.div_pos; lia|].
@@ -91,7 +91,7 @@ Proof. unfold f_dq_state_is_runnable, nz, b2z. destruct (x <? 9007199254740992);
 
 Lemma resume_loop_commit s pbw lb :
   wf s -> 288230376151711744 <= s -> hi s <> 9 -> 0 <= lb < 36028797018963968 ->
-  exists new, resume_loop 0 0 s SUSPEND_BITS 0 pbw lb = Commit new 0 /\ wf new /\ hi new = hi s - 8.
+  exists new, resume_loop 0 0 s 0 pbw lb = Commit new 0 /\ wf new /\ hi new = hi s - 8.
 Proof.
   intros W Hge H9 Hlb. unfold resume_loop. rewrite (land_suspend_bits s W).
   destruct (Z.eqb_spec (hi s * 36028797018963968) 324259173170675712) as [E|_]; [exfalso; lia|].
@@ -130,7 +130,7 @@ Qed.
 
 Lemma resume_loop_underflow s pbw lb :
   wf s -> s < 288230376151711744 -> hi s <> 9 ->
-  exists xs, resume_loop 0 0 s SUSPEND_BITS 0 pbw lb = NoCommit 2 xs.
+  exists xs, resume_loop 0 0 s 0 pbw lb = NoCommit 2 xs.
 Proof.
   intros W Hlt H9. unfold resume_loop. rewrite (land_suspend_bits s W).
   destruct (Z.eqb_spec (hi s * 36028797018963968) 324259173170675712) as [E|_]; [exfalso; lia|].
@@ -252,7 +252,7 @@ Proof.
     + apply andb_true_iff in Hl as [Hp Hl]. apply Z.ltb_lt in Hp.
       destruct (resume_spec q HI Ha Hp Hs) as (q1 & E & T & I1 & A1). rewrite E.
       assert (S1 : self q1 = self q /\ side q1 <= side q).
-      { unfold resume_word in E. destruct (resume_loop _ _ _ _ _ _ _); try discriminate.
+      { unfold resume_word in E. destruct (resume_loop _ _ _ _ _ _); try discriminate.
         - injection E as <-. cbn. lia.
         - destruct (nz _); [|discriminate]. destruct (side q =? 0); [discriminate|].
           destruct (resume_slow_loop _ _ _); try discriminate. injection E as <-. cbn. unfold HALF. lia. }
